@@ -133,7 +133,21 @@ def r05_native(rep, prog):
         di, li = writers[sx.callee_name(n)]
         darg = sx.strip(n[2][di])
         if not (sx.kind(darg) == 'param' and darg[1] == pd):
-            continue      # writes a local scratch packet, not the caller's buffer
+            # a local scratch packet, not the caller's buffer: the budget relation does not apply, but the frame encoder's own
+            # precondition does - a frame is at most 1275 bytes plus its TOC, whatever buffer it is written to
+            if sx.callee_name(n) == 'opus_encode_frame_native':
+                sts = states_before(b, i, n)
+                lo_len, hi_len = absint.INF, -absint.INF
+                for q, st in sts:
+                    lv = an.ev(n[2][li], st)
+                    lo_len, hi_len = min(lo_len, absint.lo(lv)), max(hi_len, absint.hi(lv))
+                if sts:
+                    ok = hi_len <= 1276
+                    (rep.holds if ok else rep.violated)('R05.2', '%s:opus_encode_native never asks the frame encoder for more than 1276 bytes (scratch-buffer call, len=%s)' % (prog.config, sx.show(n[2][li])[:24]),
+                                                        '%s:%s' % (f.file, sx.line(n)), 'value in [%s,%s]%s' % (lo_len, hi_len, '' if ok else
+                                                        ': a sub-frame budget above 1276 lets a hybrid frame with its redundancy exceed 1275 bytes, which the repacketizer rejects - the call fails with OPUS_INTERNAL_ERROR'),
+                                                        **({} if ok else {'key': 'native:frame-precondition-scratch'}))
+            continue
         nw += 1
         larg = n[2][li]
         where = '%s:%s' % (f.file, sx.line(n))
